@@ -25,6 +25,7 @@ from vlib.val import line, Word
 from vlib.compare import diff, Err, exc_kind, is_err
 
 ID = 'C05'
+PYBASIS_METHODS = ['raise_order', 'lower_order', 'knot_spans', 'continuity', 'greville']   # basis.py methods re-translated and proved equal to the hand model each run
 # theorems of this property stated for the object evaluator `Obj.evaluate` (bridge through C02)
 EXTRA_THEOREMS = [('Splipy.Properties.Bridge', 'Splipy/Properties/Bridge.lean', 'Bridge_C05_')]
 RTOL = 1e-7      # multiplied by the measured condition number for control points
@@ -36,10 +37,11 @@ RULE = ('continuous objects: pardim 1-3, rational or not, bases open (clamped) o
 REQUIRED_TAGS = ['model-exact-map=exact-same', 'model-exact-lower=exact-same', 'pardim=1', 'pardim=2', 'pardim=3', 'rational', 'periodic-dir', 'open-only', 'form=raise', 'form=set',
                  'form=base', 'args=single', 'args=direction', 'args=tuple', 'all-zero', 'negative', 'set-lowering',
                  'amount=3', 'kind=basis', 'lower=ok', 'interior-mult>=2', 'ret=self', 'set-single-unequal', 'set-single-unequal-lowering']
-ASSUMPTIONS = ['proof level: full for clamped non-periodic continuous bases in one parametric direction (C05_knots, '
-               'C05_geometry_clamped_full, C05_lower_left_inverse_clamped: degree-elevation inclusion and Schoenberg-Whitney '
-               'are proved); partial (named hypotheses H_incl/H_sw, exercised exactly by the model run) for periodic bases and '
-               'for the pardim 2-3 composition of the per-direction steps',
+ASSUMPTIONS = ['proof level: full for clamped non-periodic continuous bases — one direction (C05_knots, C05_geometry_clamped_full, '
+               'C05_lower_left_inverse_clamped), surfaces (C05_geometry_clamped_surface, C05_lower_left_inverse_clamped_surface) and '
+               'volumes (C05_geometry_clamped_volume, C05_lower_left_inverse_clamped_volume): degree-elevation inclusion and Schoenberg-Whitney are proved; '
+               'periodic bases: knot bookkeeping incl. ghost trimming proved (C05_knots_periodic), geometry partial (named '
+               'hypotheses H_incl/H_sw, exercised exactly by the model run)',
                'np.linalg.inv / scipy spsolve are modelled by exact inverses (certificate-checked in the model); their '
                'rounding error is bounded by RTOL times the measured condition number of the collocation matrix']
 
